@@ -153,3 +153,60 @@ func TestC10_Compose(t *testing.T) {
 		}
 	})
 }
+
+// TestC10_Wide: commutativity and the compositional law on chains of many distinct terms.
+func TestC10_Wide(t *testing.T) {
+	rec := NewRecorder("C10", "wide", "flat OR / AND chains over 2-300 distinct listed ids (sizes around 16, 32, 64, 128, 256 over-represented): the chain, a generated rotation of it and a generated permutation must get the same verdict under a list that makes one generated position decisive, and '(E) AND (F)' / '(E) OR (F)' for a generated split of the chain must equal the conjunction / disjunction of the parts; non-trivial = >= 20 terms; distinct by (chain, list)")
+	defer rec.Finish(t)
+	tb := Tbl()
+	var ids []string
+	for _, id := range tb.Active {
+		if idShaped(id) && len(tb.Positions(id)) == 0 && !strings.HasSuffix(id, "-only") && !strings.HasSuffix(id, "-or-later") {
+			ids = append(ids, id)
+		}
+	}
+	rec.Rapid(t, func(rt *rapid.T) {
+		n := rapid.SampledFrom([]int{2, 3, 8, 15, 16, 17, 31, 32, 33, 63, 64, 65, 66, 100, 127, 128, 129, 200, 255, 256, 257, 300}).Draw(rt, "n")
+		perm := rapid.Permutation(ids).Draw(rt, "ids")[:n]
+		op := rapid.SampledFrom([]string{"OR", "AND"}).Draw(rt, "op")
+		if op == "AND" && n > 66 {
+			// an AND chain needs an allowed list of about n entries, and the library compares every term
+			// with every entry through a fresh copy of the range table: kept to the sizes around 64
+			n = 63 + n%4
+			perm = perm[:n]
+		}
+		k := rapid.IntRange(0, n-1).Draw(rt, "decisive")
+		var allowed []string
+		if op == "OR" {
+			allowed = []string{perm[k]}
+		} else {
+			for i, id := range perm {
+				if i != k || rapid.IntRange(0, 2).Draw(rt, "all") == 0 {
+					allowed = append(allowed, id)
+				}
+			}
+			if len(allowed) == 0 {
+				allowed = []string{"MIT"}
+			}
+		}
+		join := func(xs []string) string { return strings.Join(xs, " "+op+" ") }
+		rot := rapid.IntRange(0, n-1).Draw(rt, "rotation")
+		rotated := append(append([]string{}, perm[rot:]...), perm[:rot]...)
+		shuffled := rapid.Permutation(perm).Draw(rt, "shuffle")
+		c := RewriteCase{Expr1: join(perm), Allowed: [][]string{allowed}, Rewrites: []string{"commute"}, E1: leafNode(0), E2: leafNode(1)}
+		for _, e2 := range []string{join(rotated), join(shuffled)} {
+			c.Expr2 = e2
+			if out := checkC10(c); !out.OK {
+				rec.Fail(rt, "c10-rewrite", out.Key, out.Msg, c)
+			}
+		}
+		if n >= 2 {
+			cut := rapid.IntRange(1, n-1).Draw(rt, "cut")
+			cc := ComposeCase{E: join(perm[:cut]), F: join(perm[cut:]), Allowed: allowed}
+			if out := checkC10Compose(cc); !out.OK {
+				rec.Fail(rt, "c10-compose", out.Key, out.Msg, cc)
+			}
+		}
+		rec.Case(n >= 20, join(perm)+" | "+strings.Join(allowed, ","), map[string]any{"terms": n, "op": op, "decisive_position": k, "head": firstN(join(perm), 80)}, "op-"+op)
+	})
+}
